@@ -218,7 +218,14 @@ class ExprMixin:
             return self.globals_cache[key]
         sv = None
         try:
-            lit = ast.literal_eval(value_ast)
+            try:
+                lit = ast.literal_eval(value_ast)
+            except Exception:
+                # constant folding of simple module constants such as  "\n" * 3  or  " " * 4
+                if all(isinstance(n, (ast.Constant, ast.BinOp, ast.Mult, ast.Add, ast.Expression, ast.Load)) for n in ast.walk(value_ast)):
+                    lit = eval(compile(ast.Expression(value_ast), "<const>", "eval"), {"__builtins__": {}})
+                else:
+                    raise
             sv = self.lit_to_sv(lit)
         except Exception:
             pass
